@@ -5,7 +5,7 @@ namespace AsmjitVerif.Sections
 
 /-- relocation patches bytes in place: everything `code_size` looks at is unchanged -/
 def SameSizes (a b : Section) : Prop :=
-  b.id = a.id ∧ b.order = a.order ∧ b.align = a.align ∧ b.realSize = a.realSize ∧ b.offset = a.offset
+  b.id = a.id ∧ b.order = a.order ∧ b.align = a.align ∧ b.realSize = a.realSize ∧ b.offset = a.offset ∧ b.vsize = a.vsize
 
 theorem patch_length (data : List Byte) (off : Nat) (bytes : List Byte) : (patch data off bytes).length = data.length := by
   unfold patch
@@ -14,7 +14,7 @@ theorem patch_length (data : List Byte) (off : Nat) (bytes : List Byte) : (patch
   | some d => exact writeAt_length h
 
 theorem SameSizes.refl_all (l : List Section) : AllRel SameSizes l l := by
-  have := AllRel.map_right (R := SameSizes) id l (fun a => ⟨rfl, rfl, rfl, rfl, rfl⟩)
+  have := AllRel.map_right (R := SameSizes) id l (fun a => ⟨rfl, rfl, rfl, rfl, rfl, rfl⟩)
   simpa using this
 
 theorem SameSizes.trans_all {l₁ l₂ l₃ : List Section} (h₁ : AllRel SameSizes l₁ l₂) (h₂ : AllRel SameSizes l₂ l₃) :
@@ -24,7 +24,7 @@ theorem SameSizes.trans_all {l₁ l₂ l₃ : List Section} (h₁ : AllRel SameS
   | cons hr _ ih =>
     cases h₂ with
     | cons hr' hrest' =>
-      exact AllRel.cons ⟨hr'.1.trans hr.1, hr'.2.1.trans hr.2.1, hr'.2.2.1.trans hr.2.2.1, hr'.2.2.2.1.trans hr.2.2.2.1, hr'.2.2.2.2.trans hr.2.2.2.2⟩ (ih hrest')
+      exact AllRel.cons ⟨hr'.1.trans hr.1, hr'.2.1.trans hr.2.1, hr'.2.2.1.trans hr.2.2.1, hr'.2.2.2.1.trans hr.2.2.2.1, hr'.2.2.2.2.1.trans hr.2.2.2.2.1, hr'.2.2.2.2.2.trans hr.2.2.2.2.2⟩ (ih hrest')
 
 theorem modifySec_sizes (secs : List Section) (id : Nat) (f : Section → Section) (hf : ∀ s, SameSizes s (f s)) :
     AllRel SameSizes secs (modifySec secs id f) := by
@@ -33,10 +33,10 @@ theorem modifySec_sizes (secs : List Section) (id : Nat) (f : Section → Sectio
   intro a
   split
   · exact hf a
-  · exact ⟨rfl, rfl, rfl, rfl, rfl⟩
+  · exact ⟨rfl, rfl, rfl, rfl, rfl, rfl⟩
 
 theorem sameSizes_patch (s : Section) (d : List Byte) (hd : d.length = s.data.length) : SameSizes s { s with data := d } := by
-  refine ⟨rfl, rfl, rfl, ?_, rfl⟩
+  refine ⟨rfl, rfl, rfl, ?_, rfl, rfl⟩
   unfold Section.realSize Section.bufSize
   simp [hd]
 
@@ -194,7 +194,7 @@ theorem sameSizes_keys {l l' : List Section} (h : AllRel SameSizes l l') : AllRe
   h.imp (fun _ _ hab => ⟨hab.1, hab.2.1, hab.2.2.1⟩)
 
 theorem sameSizes_shrinks {l l' : List Section} (h : AllRel SameSizes l l') : AllRel Shrinks l l' :=
-  h.imp (fun _ _ hab => ⟨hab.2.2.1, Nat.le_of_eq hab.2.2.2.1, hab.2.2.2.2⟩)
+  h.imp (fun _ _ hab => ⟨hab.2.2.1, Nat.le_of_eq hab.2.2.2.1, hab.2.2.2.2.1⟩)
 
 theorem Shrinks.trans_all {l₁ l₂ l₃ : List Section} (h₁ : AllRel Shrinks l₁ l₂) (h₂ : AllRel Shrinks l₂ l₃) : AllRel Shrinks l₁ l₃ := by
   induction h₁ generalizing l₃ with
